@@ -318,6 +318,11 @@ func NewReq(method, host, target string, hdr http.Header, cookies []*http.Cookie
 	return req
 }
 
+// IsRedirect: a status that sends the browser elsewhere (the statements say "redirect", not which one).
+func IsRedirect(status int) bool {
+	return status == 301 || status == 302 || status == 303 || status == 307 || status == 308
+}
+
 // SetCookies returns the Set-Cookie values of a response, parsed, in order.
 func (r *Resp) SetCookies() []*http.Cookie {
 	return (&http.Response{Header: r.Header}).Cookies()
